@@ -1437,6 +1437,8 @@ class Interp:
         if isinstance(obj, (str, Render)):
             if attr in ("format", "join", "lower", "upper", "strip"):
                 return Bound(obj, _StrMethod(attr))
+            if isinstance(obj, Render) and attr in ("startswith", "endswith"):
+                return Bound(obj, _StrMethod("render:" + attr))
             if isinstance(obj, str) and attr in ("replace", "split", "lstrip", "rstrip", "startswith", "endswith",
                                                  "isspace", "isdigit", "isalpha", "find", "count", "casefold",
                                                  "title", "swapcase", "capitalize"):
@@ -2200,6 +2202,34 @@ def _call_builtin_method(self: Interp, info, args, kwargs):
             return out
         if isinstance(obj, str) and n in ("lower", "upper", "strip"):
             return getattr(obj, n)(*[r for r in rest if isinstance(r, str)])
+        if isinstance(obj, Render) and n.startswith("render:"):
+            flat = _flatten_render(obj)
+            arg = rest[0] if rest else None
+            if not isinstance(arg, str):
+                raise Unsupported(f"{n} with abstract argument at {self.site}")
+            if n == "render:startswith":
+                lead = ""
+                for part in flat:
+                    if isinstance(part, str):
+                        lead += part
+                    else:
+                        break
+                if len(lead) >= len(arg) or len(flat) == 1 and isinstance(flat[0], str):
+                    return lead.startswith(arg)
+                if not arg.startswith(lead):
+                    return False
+                raise Unsupported(f"startswith on a partly abstract string at {self.site}")
+            tail = ""
+            for part in reversed(flat):
+                if isinstance(part, str):
+                    tail = part + tail
+                else:
+                    break
+            if len(tail) >= len(arg):
+                return tail.endswith(arg)
+            if not arg.endswith(tail):
+                return False
+            raise Unsupported(f"endswith on a partly abstract string at {self.site}")
         if isinstance(obj, str) and n.startswith("concrete:"):
             if all(isinstance(r, (str, int)) for r in rest):
                 r = getattr(obj, n.split(":", 1)[1])(*rest)
@@ -2208,6 +2238,25 @@ def _call_builtin_method(self: Interp, info, args, kwargs):
     if isinstance(obj, FactorDict) and n == "keys":
         return obj
     raise Unsupported(f"method {info.qualname} on {obj!r} at {self.site}")
+
+
+def _flatten_render(r) -> list:
+    out: list = []
+    for p in (r.parts if isinstance(r, Render) else [r]):
+        if isinstance(p, str):
+            if out and isinstance(out[-1], str):
+                out[-1] += p
+            else:
+                out.append(p)
+        elif isinstance(p, tuple) and p[0] == "node":
+            for q in _flatten_render(p[2]):
+                if isinstance(q, str) and out and isinstance(out[-1], str):
+                    out[-1] += q
+                else:
+                    out.append(q)
+        else:
+            out.append(p)
+    return out
 
 
 # ---------------------------------------------------------------------------- exploration driver
